@@ -302,7 +302,7 @@ def perturb(draw, base, nmoves):
 
 
 SHAPES = ["complete", "incomplete", "sparse_block", "near_unanimous", "identical", "near_unanimous_incomplete",
-          "cyclic", "cyclic_incomplete", "block_cyclic", "cyclic_ties", "mixture", "floaters", "camps", "singletons"]
+          "cyclic", "cyclic_incomplete", "block_cyclic", "cyclic_ties", "mixture", "floaters", "camps", "singletons", "clones", "runs", "splits"]
 BASE_SHAPES = SHAPES[:9]
 # not in SHAPES (thousands of rankings are too heavy for the generic checks): a few distinct ballots with large
 # multiplicities, i.e. large scores with small absolute differences between candidates
@@ -311,8 +311,10 @@ EXTRA_SHAPES = ["election", "large_uniform"]
 
 @st.composite
 def datasets(draw, max_n=7, max_m=5, min_n=1, shapes=None, kinds=None, allow_empty_rankings=True,
-             allow_duplicates=True):
-    """returns dict(rankings=..., shape=..., kind=...)"""
+             allow_duplicates=True, many="small"):
+    """returns dict(rankings=..., shape=..., kind=...).  many: how far the 'many rankings' extension may go - "small"
+    (6-19 rankings), "byte" (also 257 / 300), "thousand" (also 1001); the larger ones are for callers whose cost is
+    linear in the number of rankings (PickAPerm, for one, is quadratic)"""
     shape = draw(st.sampled_from(shapes or SHAPES))
     # sampled_from is uniform (st.integers is biased to small values); it still shrinks towards the smallest size
     n = draw(st.sampled_from(list(range(min_n, max_n + 1))))
@@ -326,6 +328,63 @@ def datasets(draw, max_n=7, max_m=5, min_n=1, shapes=None, kinds=None, allow_emp
     if shape == "complete":
         for _ in range(m):
             rankings.append(draw(weak_order_of(names)))
+    elif shape == "clones":
+        # classes of interchangeable elements: the members of a class are tied together wherever they are ranked and
+        # missing together elsewhere (identical rows of the position matrix); classes of different sizes, often more
+        # clones than classes
+        k = draw(st.sampled_from([1, 2, 2, 3, 3]))
+        k = min(k, n)
+        sizes = [1] * k
+        for _ in range(n - k):
+            sizes[draw(st.integers(0, k - 1))] += 1
+        classes, pos = [], 0
+        for sz in sizes:
+            classes.append(names[pos:pos + sz])
+            pos += sz
+        for _ in range(m):
+            mask = draw(st.lists(st.sampled_from([True, True, False]), min_size=k, max_size=k))
+            dom = [ci for ci, keep in enumerate(mask) if keep]
+            rankings.append([[e for ci in b for e in classes[ci]] for b in draw(weak_order_of(dom))])
+    elif shape == "runs":
+        # a few distinct rankings, each repeated 1-4 times IN A ROW (runs of identical consecutive rankings)
+        for _ in range(draw(st.sampled_from([2, 2, 3]))):
+            mask = draw(st.lists(st.sampled_from([True, True, True, False]), min_size=n, max_size=n))
+            r = draw(weak_order_of([e for e, keep in zip(names, mask) if keep]))
+            for _ in range(draw(st.sampled_from([1, 2, 3, 3, 4]))):
+                rankings.append([list(b) for b in r])
+    elif shape == "fence":
+        # pairwise comparisons (rankings of two elements) forming a k-fence: u_i before l_i, l_i before u_j (j != i);
+        # the u's and the l's are not compared among themselves.  Fences (k >= 3, at least 6 elements) are the smallest
+        # majority structures on which the LINEAR RELAXATION of the ordering problem has a fractional optimum
+        k = min(3, n // 2) if n < 8 else draw(st.sampled_from([3, 4]))
+        us, ls, rest = names[:k], names[k:2 * k], names[2 * k:]
+        if k == 0:
+            rankings.append([[names[0]]])
+        w = draw(st.sampled_from([1, 1, 2]))
+        for i in range(k):
+            for _ in range(w):
+                rankings.append([[us[i]], [ls[i]]])
+            for j in range(k):
+                if j != i:
+                    rankings.append([[ls[i]], [us[j]]])
+        for e in rest:
+            if k:
+                rankings.append([[e], [draw(st.sampled_from(names[:2 * k]))]])
+        for _ in range(draw(st.integers(0, 2))):                      # a few extra comparisons
+            a, b = draw(st.lists(st.sampled_from(names), min_size=2, max_size=2, unique=True)) if n >= 2 else (names[0],) * 2
+            if a != b:
+                rankings.append([[a], [b]])
+    elif shape == "splits":
+        # approval-style ballots: every ranking splits the elements into a top bucket and a bottom bucket; a split and
+        # its reverse are often both present.  With cheap ties many of them are exactly as good as one another
+        for _ in range(max(2, m)):
+            mask = draw(st.lists(st.booleans(), min_size=n, max_size=n))
+            top = [e for e, k in zip(names, mask) if k]
+            bot = [e for e, k in zip(names, mask) if not k]
+            r = [b for b in (top, bot) if b]
+            rankings.append(r)
+            if draw(st.booleans()):
+                rankings.append([list(b) for b in reversed(r)])
     elif shape == "singletons":
         # every ranking ranks one element (sometimes two): the all-tied ranking is then hard to beat
         for _ in range(max(m, 2)):
@@ -468,7 +527,12 @@ def datasets(draw, max_n=7, max_m=5, min_n=1, shapes=None, kinds=None, allow_emp
         # 2-3 blocks in a common order; inside a block every ranking uses a rotation (cycle); a ranking may skip whole
         # blocks: several components, some of them hard, and rankings that miss a whole component
         nb = draw(st.integers(1, min(3, n)))
-        cuts = sorted(draw(st.lists(st.integers(1, max(1, n - 1)), min_size=nb - 1, max_size=nb - 1)))
+        if n >= 9:
+            # many elements: three to five blocks of at least three elements (three or more hard components at once)
+            nb = draw(st.integers(3, n // 3))
+            cuts = [3 * i for i in range(1, nb)]
+        else:
+            cuts = sorted(draw(st.lists(st.integers(1, max(1, n - 1)), min_size=nb - 1, max_size=nb - 1)))
         blocks, prev = [], 0
         for c in cuts + [n]:
             if c > prev:
@@ -514,7 +578,17 @@ def datasets(draw, max_n=7, max_m=5, min_n=1, shapes=None, kinds=None, allow_emp
         rankings.append([list(b) for b in rankings[i]])
     if allow_duplicates and rankings and draw(st.integers(0, 9)) == 0:
         # many rankings (numbers of rankings m for which m * (1/m) != 1.0 in floating point are among them)
-        target = draw(st.sampled_from([6, 7, 10, 13, 15, 19]))
+        target = draw(st.sampled_from([6, 7, 10, 13, 15, 19] + ([19, 257, 300] if many != "small" else []) +
+                                      ([1001] if many == "thousand" else [])))
+        if target == 1001:
+            # more than a thousand rankings, the first three and the last three tying every element: every row of the
+            # position matrix starts and ends alike (arrays of more than 1000 entries are PRINTED "a b c ... x y z")
+            core = [[list(b) for b in r] for _ in range(-(-995 // len(rankings))) for r in rankings]
+            tied = [list(names)]
+            rankings = [[list(b) for b in tied] for _ in range(3)] + core + [[list(b) for b in tied] for _ in range(3)]
+        elif target >= 257:
+            # hundreds of rankings (more than a byte, more than the small ints CPython shares): the whole list repeated
+            rankings = [[list(b) for b in r] for _ in range(-(-target // len(rankings))) for r in rankings]
         while len(rankings) < target:
             i = draw(st.integers(0, len(rankings) - 1))
             rankings.append([list(b) for b in rankings[i]])
